@@ -67,7 +67,7 @@ Proof. vm_compute. reflexivity. Qed.
 (* ------------------------------------------------------------------------------------------------------
    Added in build session 4 (statements re-stated from the proof files by harness tooling; each is closed by
    exact). *)
-From SplipyModel Require Import Proofs.ObjEval Proofs.ReparamEndToEnd Proofs.ReverseEndToEnd Proofs.SwapEndToEnd Transfer.ParamObj Transfer.ParamOps Transfer.ParamOps2.
+From SplipyModel Require Import Proofs.ObjEval Proofs.ReparamEndToEnd Proofs.ReverseEndToEnd Proofs.SwapEndToEnd Transfer.ParamObj Transfer.ParamOps Transfer.ParamOps2 Proofs.PeriodicInsert Proofs.PeriodicReverse.
 Open Scope R_scope.
 Theorem C06_reparam_then_evaluate :
   forall (tol : R) (o : obj R) (d : nat) (s e : R) (o' : obj R) (ts : list R),
@@ -310,4 +310,99 @@ Theorem C06_executed_is_proved_reparam :
          resmap objQ2R (obj_reparam_dir o d s e) = obj_reparam_dir (objQ2R o) d (Q2R s) (Q2R e).
 Proof. exact @obj_reparam_dir_transfer. Qed.
 Print Assumptions C06_executed_is_proved_reparam.
+
+Theorem C06_reverse_periodic_canonical :
+  forall (k : list R) (p per1 n : nat) (T : R),
+         per_canon k p per1 n T ->
+         let a := kn k (p - 1) in
+         let e := kn k (length k - p) in
+         per_canon (rknots a e k) p per1 n T /\
+         kn (rknots a e k) (p - 1) = a /\ kn (rknots a e k) (length (rknots a e k) - p) = e /\ e = a + T.
+Proof. exact @reverse_canon. Qed.
+Print Assumptions C06_reverse_periodic_canonical.
+
+Theorem C06_reverse_periodic_rows :
+  forall (k : list R) (p per1 : nat),
+         sorted (kn k) ->
+         (1 <= p)%nat ->
+         (2 * p <= length k)%nat ->
+         (0 < length k - p - per1)%nat ->
+         forall (side : bool) (t : R),
+         row_rel (ref_row side k p per1 0 t)
+           (ref_row (negb side) (rknots (kn k (p - 1)) (kn k (length k - p)) k) p per1 0
+              (kn k (p - 1) + kn k (length k - p) - t)) (rev_matrix (length k - p - per1) per1).
+Proof. exact @ref_row_reverse. Qed.
+Print Assumptions C06_reverse_periodic_rows.
+
+Theorem C06_reverse_periodic_then_evaluate :
+  forall (tol : R) (o : obj R) (d : nat) (ts ts2 : list R),
+         0 < tol ->
+         wf_obj_R tol o ->
+         (d < length (o_bases o))%nat ->
+         let bd := nth d (o_bases o) dflt_basis in
+         let a := b_start bd in
+         let e := b_end bd in
+         (0 < b_per1 bd)%nat ->
+         (forall i : nat, (i < length (o_bases o))%nat -> in_dom tol (nth i (o_bases o) dflt_basis) (nth i ts 0)) ->
+         a <= nth d ts 0 <= e ->
+         rev_ok (b_knots bd) (b_order bd) tol (nth d ts 0) ->
+         nth d ts2 0 = a + e - nth d ts 0 ->
+         (forall i : nat, i <> d -> nth i ts2 0 = nth i ts 0) -> obj_eval tol (obj_reverse o d) ts2 = obj_eval tol o ts.
+Proof. exact @reverse_periodic_eval. Qed.
+Print Assumptions C06_reverse_periodic_then_evaluate.
+
+Theorem C06_reverse_periodic_then_evaluate_wrapped :
+  forall (tol : R) (o : obj R) (d : nat) (ts ts2 : list R) (t0 : R) (z : Z),
+         0 < tol ->
+         wf_obj_R tol o ->
+         (d < length (o_bases o))%nat ->
+         let bd := nth d (o_bases o) dflt_basis in
+         let a := b_start bd in
+         let e := b_end bd in
+         (0 < b_per1 bd)%nat ->
+         (forall i : nat, (i < length (o_bases o))%nat -> in_dom tol (nth i (o_bases o) dflt_basis) (nth i ts 0)) ->
+         nth d ts 0 = t0 + IZR z * (e - a) ->
+         a < t0 < e ->
+         (forall v : R, In v (b_knots bd) -> tol <= Rabs (v - nth d ts 0)) ->
+         (forall v : R, In v (b_knots bd) -> v <> t0) \/ cont_at (b_knots bd) (b_order bd) t0 ->
+         nth d ts2 0 = a + e - nth d ts 0 ->
+         (forall i : nat, i <> d -> nth i ts2 0 = nth i ts 0) -> obj_eval tol (obj_reverse o d) ts2 = obj_eval tol o ts.
+Proof. exact @reverse_periodic_eval_wrapped. Qed.
+Print Assumptions C06_reverse_periodic_then_evaluate_wrapped.
+
+Theorem C06_reverse_periodic_domain :
+  forall tol : R,
+         0 < tol ->
+         forall o : obj R,
+         wf_obj_R tol o ->
+         forall d : nat,
+         (d < length (o_bases o))%nat ->
+         b_start (nth d (o_bases (obj_reverse o d)) dflt_basis) = b_start (nth d (o_bases o) dflt_basis) /\
+         b_end (nth d (o_bases (obj_reverse o d)) dflt_basis) = b_end (nth d (o_bases o) dflt_basis) /\
+         b_order (nth d (o_bases (obj_reverse o d)) dflt_basis) = b_order (nth d (o_bases o) dflt_basis) /\
+         b_per1 (nth d (o_bases (obj_reverse o d)) dflt_basis) = b_per1 (nth d (o_bases o) dflt_basis) /\
+         b_nfun (nth d (o_bases (obj_reverse o d)) dflt_basis) = b_nfun (nth d (o_bases o) dflt_basis) /\
+         length (o_bases (obj_reverse o d)) = length (o_bases o) /\
+         (forall i : nat, i <> d -> nth i (o_bases (obj_reverse o d)) dflt_basis = nth i (o_bases o) dflt_basis) /\
+         (forall j : nat,
+          kn (b_knots (nth d (o_bases (obj_reverse o d)) dflt_basis)) j =
+          b_start (nth d (o_bases o) dflt_basis) + b_end (nth d (o_bases o) dflt_basis) -
+          kn (b_knots (nth d (o_bases o) dflt_basis)) (length (b_knots (nth d (o_bases o) dflt_basis)) - 1 - j)) /\
+         o_dim (obj_reverse o d) = o_dim o /\ o_rat (obj_reverse o d) = o_rat o.
+Proof. exact @reverse_periodic_domain. Qed.
+Print Assumptions C06_reverse_periodic_domain.
+
+Theorem C06_reverse_periodic_wf :
+  forall tol : R,
+         0 < tol ->
+         forall o : obj R,
+         wf_obj_R tol o -> forall d : nat, (d < length (o_bases o))%nat -> wf_obj_R tol (obj_reverse o d).
+Proof. exact @reverse_periodic_wf. Qed.
+Print Assumptions C06_reverse_periodic_wf.
+
+Theorem C06_reverse_periodic_involution :
+  forall (tol : R) (o : obj R) (d : nat),
+         0 < tol -> wf_obj_R tol o -> (d < length (o_bases o))%nat -> obj_reverse (obj_reverse o d) d = o.
+Proof. exact @reverse_periodic_involution. Qed.
+Print Assumptions C06_reverse_periodic_involution.
 
